@@ -932,9 +932,13 @@ def thread_known_switches(bodies, max_chain=12, max_rounds=6):
             changed = False
             for p in range(len(blocks)):
                 t = blocks[p]["term"]
-                if t["t"] not in ("goto", "drop", "falseedge") or not isinstance(t.get("to"), int):
+                # (`x = from_residual(..)` - the Err / None that a failing `?` rebuilds - decides a later test just like
+                # an aggregate does: e.g. the `?` in the caller of an inlined helper)
+                is_fr = t["t"] == "call" and str((t.get("f") or {}).get("n")).endswith("FromResidual::from_residual") and \
+                    not blocks[p].get("cleanup")
+                if (t["t"] not in ("goto", "drop", "falseedge") and not is_fr) or not isinstance(t.get("to"), int):
                     continue
-                if not any(s.get("s") == "assign" and s["rv"]["r"] in ("agg", "use") for s in blocks[p]["stmts"]):
+                if not is_fr and not any(s.get("s") == "assign" and s["rv"]["r"] in ("agg", "use") for s in blocks[p]["stmts"]):
                     continue
                 known = bool_transfer(body, p, {})
                 if not known:
